@@ -243,6 +243,26 @@ CHECKS = {
              'the enumerated matrix at microversion 1.39.',
         note='noauth2 middleware supplies caller classes; keystone token '
              'validation needs a server and is not exercised'),
+    'C19': dict(
+        engine='api-state-machine', category='exploration', design='4.C19',
+        technique='stateful property-based testing (Hypothesis rule-based '
+                  'machine) over name-management requests interleaved with '
+                  'repeated start-up synchronisation from generated '
+                  'empty/partial/full databases; oracle = raw rows vs the '
+                  'os_traits / os_resource_classes libraries and a name '
+                  'grammar',
+        text='Histories of POST/PUT(create, rename <1.7)/DELETE on resource '
+             'classes and traits with names from a grammar (valid, existing, '
+             'standard, 255/256 long, case, illegal and control characters, '
+             'JSON metacharacters, random tails) interleaved with start-ups; '
+             'checks presence and fixed ids of all library symbols after each '
+             'start-up, idempotence of an immediate second start-up, '
+             'immutability of standard rows under every request, well-formed '
+             'names and ids >= 10000 for every row an API request adds, '
+             '204/409 and no duplicates for existing names. Bounded random '
+             'exploration.',
+        note='start-up = deploy.update_database() with the per-process flags '
+             'reset; partial databases made with raw SQL; SQLite'),
 }
 
 NOT_APPLICABLE = {}
